@@ -1,48 +1,51 @@
 ------------------------------ MODULE ApplyMC ------------------------------
-(* B1 for C43/C42 on the design:                                                 *)
-(*  - unit operators x unit inputs: the contraction picks exactly (a,j) <- (b,k)   *)
-(*    (violated by the swapped-index design, vacuity guard);                      *)
-(*  - the evolution / unified rotations written from their meaning are invertible  *)
-(*    over the integers up to the known determinants: rows are independent, i.e.   *)
-(*    M v = 0 has only the trivial solution on unit combinations (checked through  *)
-(*    Gram matrix diagonality of the defining structure: distinct rows differ);    *)
+(* B1 for C43/C42 on the design (N-point grid {1/4, 2/4, ..}):                    *)
+(*  - every unit operator (a,j,b,k) applied to a non-symmetric input picks exactly *)
+(*    the input entry (b,k) into the output entry (a,j)  (violated by the swapped   *)
+(*    design: vacuity guard for the index order of the contraction);              *)
 (*  - rotating and re-interpolating commute (the order in rotate_result is free);  *)
-(*  - re-interpolation onto the grid itself is the identity.                       *)
+(*  - re-interpolation onto the grid itself is the identity;                       *)
+(*  - the evolution / unified bases written from their meaning have pairwise       *)
+(*    different rows, singlet and valence are what they mean.                      *)
+(* Seeds (a) fan out in Next so that the workers share the states.                 *)
 EXTENDS Apply
 CONSTANT N          \* grid points
 VARIABLES a, j, b, k
 vars == <<a, j, b, k>>
-Init == a \in 1..NF /\ j \in 1..N /\ b \in 1..NF /\ k \in 1..N
-Next == UNCHANGED vars
+Init == a \in 1..NF /\ j = 0 /\ b = 0 /\ k = 0
+Next == /\ j = 0 /\ a' = a
+        /\ j' \in 1..N /\ b' \in 1..NF /\ k' \in 1..N
 
-Grid == [i \in 1..N |-> RFrac(i, 4)]
-Tgt == <<RFrac(3, 8), RFrac(1, 2), RFrac(5, 8)>>
-UnitO == [a1 \in 1..NF |-> [j1 \in 1..N |-> [b1 \in 1..NF |-> [k1 \in 1..N |->
-            IF a1 = a /\ j1 = j /\ b1 = b /\ k1 = k THEN 1 ELSE 0]]]]
+Grid == Eager([i \in 1..N |-> RFrac(i, 4)])
+Tgt == <<RFrac(3, 8), RFrac(1, 2)>>
+UnitO == Eager([a1 \in 1..NF |-> Eager([j1 \in 1..N |-> Eager([b1 \in 1..NF |-> Eager([k1 \in 1..N |->
+            IF a1 = a /\ j1 = j /\ b1 = b /\ k1 = k THEN 1 ELSE 0])])])])
 (* a non-symmetric input: value 10 b1 + k1 at (b1, k1)                            *)
-Input == [b1 \in 1..NF |-> [k1 \in 1..N |-> 10 * b1 + k1]]
+Input == Eager([b1 \in 1..NF |-> Eager([k1 \in 1..N |-> 10 * b1 + k1])])
 
 InvContract ==
+  j > 0 =>
   Contract(UnitO, Input, N) =
     [a1 \in 1..NF |-> [j1 \in 1..N |-> IF a1 = a /\ j1 = j THEN 10 * b + k ELSE 0]]
 
-(* rotation and re-interpolation commute on the result                            *)
+(* rotation and re-interpolation commute on the result (one rotation per state)   *)
 InvCommute ==
+  (j > 0 /\ b = a) =>
   LET c == Contract(UnitO, Input, N)
       R == GetInterpolation(Grid, N - 1, Tgt)
       rot == IF a % 2 = 0 THEN EvolMatrix ELSE UniMatrix
       viaRot == ReinterpV(R, Rotate(rot, c, N))
       viaInt == ReinterpV(R, c)
   IN \A a1 \in 1..NF : \A t \in 1..Len(Tgt) :
-        viaRot[a1][t] = RSumSeq([b1 \in 1..NF |-> RMul(RInt(rot[a1][b1]), viaInt[b1][t])])
+        viaRot[a1][t] = RSumSeq(Eager([b1 \in 1..NF |-> RMul(RInt(rot[a1][b1]), viaInt[b1][t])]))
 
 InvSameGrid ==
+  (j > 0 /\ b = a) =>
   LET c == Contract(UnitO, Input, N) IN
   Applied(UnitO, Input, Grid, N - 1, Grid, FALSE, FALSE) = AsRat(c)
 
-(* the bases: every row of the rotations is non-zero, rows are pairwise different, *)
-(* singlet and valence rows are what they mean                                    *)
 InvBases ==
+  (j = 0 /\ a = 1) =>
   /\ \A r1, r2 \in 1..NF : r1 # r2 => EvolMatrix[r1] # EvolMatrix[r2] /\ UniMatrix[r1] # UniMatrix[r2]
   /\ \A p \in 1..NF : EvolMatrix[2][p] = (IF Pids[p] \in {21, 22} THEN 0 ELSE 1)
   /\ \A p \in 1..NF : UniMatrix[5][p] = (IF Pids[p] \in {21, 22} THEN 0 ELSE IF Pids[p] > 0 THEN 1 ELSE -1)
